@@ -19,6 +19,7 @@ EXPLANATION = (
     "binary_sequence/str/Array_Like are accepted, anything else raises TypeError/ValueError; non-0/1 content and ndim != 1 raise ValueError. "
     "C15.5: len = data.size, ones = sum(data), zeros = len - ones. C15.6: > and < compare self.abs() (|signal+noise|) with other.abs() "
     "using > and < respectively, and unequal lengths raise unless the right operand has length 1 (length classes (n,n), (n,1), (n,m), (1,n)). Not decided: the algebraic laws as such (they follow from numpy semantics given this structure).")
+EXPLANATION += (" Added after the audit wave: C15.4 binary_sequence opts out of numpy's operator protocol (__array_ufunc__ = None) so that ndarray + sequence reaches __radd__; C15.2 the key of __getitem__ reaches the data unchanged; C15.5 ones()/zeros() count by value.")
 TRUSTED = ["numpy.concatenate/astype/array allocate new arrays", "utils.str2array (C19)", "CPython ast"]
 
 
@@ -131,6 +132,15 @@ def rule_closure(ctx, eff):
                   f"result may alias {sorted(p + path for p, path in roots)} / writes {sorted(p + path for p, path in s.mutates)}")
     init = pkg.find_method("typing", "binary_sequence", "__init__")
     ctx.check("C15.3", not eff.sum[init.qualname].stored, init, init.node, "binary_sequence.__init__ stored array", "fresh copy", "constructor keeps a reference to the caller's array")
+    # `+` in both orders with every accepted container: for a numpy array on the LEFT, ndarray.__add__ runs first and tries to coerce
+    # the sequence element by element (ValueError) unless the class opts out of numpy's operators: only then Python falls back to __radd__
+    ci = pkg.module("typing").classes.get("binary_sequence")
+    radd = pkg.find_method("typing", "binary_sequence", "__radd__")
+    au = ci.class_consts.get("__array_ufunc__") if ci is not None else None
+    ok_au = isinstance(au, ast.Constant) and au.value is None
+    ctx.check("C15.4", ok_au and radd is not None, radd or init, (au if au is not None else (radd.node if radd else init.node)), "binary_sequence: ndarray + sequence reaches __radd__", "__array_ufunc__ = None",
+              "the class does not set `__array_ufunc__ = None`: with a numpy array as the LEFT operand numpy's own `+` runs (and fails coercing the sequence) instead of deferring to "
+              "binary_sequence.__radd__ - concatenation in that order raises ValueError for an accepted container")
     for meth in ("__gt__", "__lt__"):
         m = pkg.find_method("typing", "electrical_signal", meth)
         it = Interp(pkg, self_class="electrical_signal", assumptions={"self.noise": "notnone", "other": ("notinst", "electrical_signal")})
